@@ -87,7 +87,13 @@ static void stage_readers(struct mcs_stats *tot)
     for (int i = 0; i < T; i++) sb_init(&r.dig[i]);
     /* single-threaded reference digests (also warms nothing up: the globals are reset to the post-load state before every execution) */
     mcs_snapshot_globals();
-    for (int g = 0; g < BAT_NGROUPS; g++) { struct sb d; sb_init(&d); battery_group(r.t, g, &d); r.ref[g] = strdup(d.s ? d.s : ""); sb_free(&d); }
+    /* ... computed on a separate heap copy of the same source: running the battery on the shared topology here would
+     * perform (and hide) any lazy update that a reader would otherwise have to do */
+    { struct ucfg c; ucfg_keepall(&c); hwloc_topology_t tref; if (univ_load(&tref, &s, &c)) { mc_note("source %s does not load twice", SRC[si]); continue; }
+      hwloc_topology_refresh(tref);
+      for (int g = 0; g < BAT_NGROUPS; g++) { struct sb d; sb_init(&d); battery_group(tref, g, &d); r.ref[g] = strdup(d.s ? d.s : ""); sb_free(&d); }
+      hwloc_topology_destroy(tref); }
+    mcs_snapshot_globals();
     mcs_readonly_clear(); mcs_readonly_region(ARENA, ARENA_SIZE, "topology");
     MC.states++;
     /* every tuple of groups (unordered: the threads are symmetric) */
